@@ -61,30 +61,37 @@ var (
 )
 
 // IsNotExist is os.IsNotExist.
+//
 //go:norace
 func IsNotExist(err error) bool { return os.IsNotExist(err) }
 
 // IsExist is os.IsExist.
+//
 //go:norace
 func IsExist(err error) bool { return os.IsExist(err) }
 
 // Getenv is os.Getenv.
+//
 //go:norace
 func Getenv(k string) string { return os.Getenv(k) }
 
 // Getpid is os.Getpid.
+//
 //go:norace
 func Getpid() int { return os.Getpid() }
 
 // TempDir is os.TempDir.
+//
 //go:norace
 func TempDir() string { return os.TempDir() }
 
 // Getwd is os.Getwd.
+//
 //go:norace
 func Getwd() (string, error) { return os.Getwd() }
 
 // Exit is os.Exit.
+//
 //go:norace
 func Exit(code int) { os.Exit(code) }
 
@@ -133,12 +140,14 @@ type FS struct {
 }
 
 // New returns an empty tree containing only "/".
+//
 //go:norace
 func New() *FS {
 	return &FS{root: &node{dir: true, children: map[string]*node{}, mode: 0o777 | fs.ModeDir}, Counts: map[string]int{}}
 }
 
 // Snapshot deep-copies the tree (hooks and counters are not copied).
+//
 //go:norace
 func (f *FS) Snapshot() *FS {
 	return &FS{root: f.root.clone(), Counts: map[string]int{}}
@@ -146,6 +155,7 @@ func (f *FS) Snapshot() *FS {
 
 // AppendRaw appends data to the file at path in this tree, creating the file
 // node if its parent exists (used to build partial-write crash states).
+//
 //go:norace
 func (f *FS) AppendRaw(path string, off int64, data []byte) {
 	dir, name := filepath.Split(clean(path))
@@ -166,6 +176,7 @@ func (f *FS) AppendRaw(path string, off int64, data []byte) {
 }
 
 // Dump lists every path with file sizes, sorted (diagnostics, evidence samples).
+//
 //go:norace
 func (f *FS) Dump() []string {
 	var out []string
@@ -209,10 +220,12 @@ func itoa(i int) string {
 const valKey = "simfs"
 
 // Install makes fsys the file system seen by instrumented code in sim.
+//
 //go:norace
 func Install(s *simrt.Sim, fsys *FS) { s.SetVal(valKey, fsys) }
 
 // Installed returns the FS installed in s, or nil.
+//
 //go:norace
 func Installed(s *simrt.Sim) *FS {
 	f, _ := s.Val(valKey).(*FS)
@@ -220,6 +233,7 @@ func Installed(s *simrt.Sim) *FS {
 }
 
 // cur returns the calling task and its FS; (nil,nil) means "use the real os".
+//
 //go:norace
 func cur() (*simrt.Task, *FS) {
 	t := simrt.Current()
@@ -255,10 +269,10 @@ func (f *FS) walk(path string) *node {
 	return n
 }
 
-//go:norace
 // missErr is the error for a path that does not resolve: ENOTDIR if a proper
 // prefix of it is a regular file, ENOENT otherwise.
 //
+//go:norace
 //go:norace
 func (f *FS) missErr(path string) error {
 	path = clean(path)
@@ -289,6 +303,7 @@ func (f *FS) parent(path string) (*node, string) {
 func perr(op, path string, err error) error { return &PathError{Op: op, Path: path, Err: err} }
 
 // step announces a mutating call: scheduling point, hook, error injection.
+//
 //go:norace
 func (f *FS) step(t *simrt.Task, kind, path string, data []byte) error {
 	t.Yield("fs " + kind)
@@ -312,8 +327,10 @@ type fileInfo struct {
 
 //go:norace
 func (fi fileInfo) Name() string { return fi.name }
+
 //go:norace
-func (fi fileInfo) Size() int64  { return fi.size }
+func (fi fileInfo) Size() int64 { return fi.size }
+
 //go:norace
 func (fi fileInfo) Mode() FileMode {
 	if fi.n.dir {
@@ -321,14 +338,18 @@ func (fi fileInfo) Mode() FileMode {
 	}
 	return fi.n.mode
 }
+
 //go:norace
 func (fi fileInfo) ModTime() time.Time { return fi.n.mtime }
+
 //go:norace
-func (fi fileInfo) IsDir() bool        { return fi.n.dir }
+func (fi fileInfo) IsDir() bool { return fi.n.dir }
+
 //go:norace
-func (fi fileInfo) Sys() interface{}   { return nil }
+func (fi fileInfo) Sys() interface{} { return nil }
 
 // Stat is os.Stat.
+//
 //go:norace
 func Stat(name string) (FileInfo, error) {
 	t, f := cur()
@@ -344,6 +365,7 @@ func Stat(name string) (FileInfo, error) {
 }
 
 // Lstat is os.Lstat.
+//
 //go:norace
 func Lstat(name string) (FileInfo, error) {
 	if _, f := cur(); f == nil {
@@ -353,6 +375,7 @@ func Lstat(name string) (FileInfo, error) {
 }
 
 // Mkdir is os.Mkdir.
+//
 //go:norace
 func Mkdir(name string, perm FileMode) error {
 	t, f := cur()
@@ -379,6 +402,7 @@ func (f *FS) mkdir(name string, perm FileMode) error {
 }
 
 // MkdirAll is os.MkdirAll; each directory created is one step.
+//
 //go:norace
 func MkdirAll(path string, perm FileMode) error {
 	t, f := cur()
@@ -420,6 +444,7 @@ func MkdirAll(path string, perm FileMode) error {
 }
 
 // Remove is os.Remove.
+//
 //go:norace
 func Remove(name string) error {
 	t, f := cur()
@@ -455,6 +480,7 @@ func (f *FS) remove(name string) error {
 
 // RemoveAll is os.RemoveAll, expanded into individual removes (each a step)
 // in an order decided by the run's choice source.
+//
 //go:norace
 func RemoveAll(path string) error {
 	t, f := cur()
@@ -527,6 +553,7 @@ func (f *FS) orderedNames(t *simrt.Task, n *node) []string {
 }
 
 // Rename is os.Rename.
+//
 //go:norace
 func Rename(oldpath, newpath string) error {
 	t, f := cur()
@@ -583,16 +610,19 @@ type File struct {
 }
 
 // Create is os.Create.
+//
 //go:norace
 func Create(name string) (*File, error) {
 	return OpenFile(name, O_RDWR|O_CREATE|O_TRUNC, 0o666)
 }
 
 // Open is os.Open.
+//
 //go:norace
 func Open(name string) (*File, error) { return OpenFile(name, O_RDONLY, 0) }
 
 // OpenFile is os.OpenFile.
+//
 //go:norace
 func OpenFile(name string, flag int, perm FileMode) (*File, error) {
 	t, f := cur()
@@ -644,6 +674,7 @@ func OpenFile(name string, flag int, perm FileMode) (*File, error) {
 }
 
 // Name returns the name of the file.
+//
 //go:norace
 func (f *File) Name() string {
 	if f.real != nil {
@@ -653,6 +684,7 @@ func (f *File) Name() string {
 }
 
 // Fd returns the real descriptor or an invalid one.
+//
 //go:norace
 func (f *File) Fd() uintptr {
 	if f.real != nil {
@@ -662,6 +694,7 @@ func (f *File) Fd() uintptr {
 }
 
 // Read implements io.Reader.
+//
 //go:norace
 func (f *File) Read(p []byte) (int, error) {
 	if f.real != nil {
@@ -682,6 +715,7 @@ func (f *File) Read(p []byte) (int, error) {
 }
 
 // ReadAt implements io.ReaderAt.
+//
 //go:norace
 func (f *File) ReadAt(p []byte, off int64) (int, error) {
 	if f.real != nil {
@@ -701,6 +735,7 @@ func (f *File) ReadAt(p []byte, off int64) (int, error) {
 }
 
 // Write implements io.Writer; each call is one FS step.
+//
 //go:norace
 func (f *File) Write(p []byte) (int, error) {
 	if f.real != nil {
@@ -735,6 +770,7 @@ func (f *File) Write(p []byte) (int, error) {
 }
 
 // WriteOffset is the offset the next write lands at (for partial-write snapshots).
+//
 //go:norace
 func (f *FS) stepWrite(t *simrt.Task, file *File, p []byte) error {
 	t.Yield("fs write")
@@ -751,10 +787,12 @@ func (f *FS) stepWrite(t *simrt.Task, file *File, p []byte) error {
 }
 
 // WriteString is like Write.
+//
 //go:norace
 func (f *File) WriteString(s string) (int, error) { return f.Write([]byte(s)) }
 
 // Seek implements io.Seeker.
+//
 //go:norace
 func (f *File) Seek(offset int64, whence int) (int64, error) {
 	if f.real != nil {
@@ -776,6 +814,7 @@ func (f *File) Seek(offset int64, whence int) (int64, error) {
 }
 
 // Close closes the file.
+//
 //go:norace
 func (f *File) Close() error {
 	if f.real != nil {
@@ -789,6 +828,7 @@ func (f *File) Close() error {
 }
 
 // Sync is a no-op under simulation (process-death crash model).
+//
 //go:norace
 func (f *File) Sync() error {
 	if f.real != nil {
@@ -801,6 +841,7 @@ func (f *File) Sync() error {
 }
 
 // Truncate changes the size of the file.
+//
 //go:norace
 func (f *File) Truncate(size int64) error {
 	if f.real != nil {
@@ -821,6 +862,7 @@ func (f *File) Truncate(size int64) error {
 }
 
 // Stat returns the FileInfo of the file.
+//
 //go:norace
 func (f *File) Stat() (FileInfo, error) {
 	if f.real != nil {
@@ -852,6 +894,7 @@ func (f *File) listDir() error {
 }
 
 // Readdirnames is (*os.File).Readdirnames; the order is seeded.
+//
 //go:norace
 func (f *File) Readdirnames(n int) ([]string, error) {
 	if f.real != nil {
@@ -881,11 +924,13 @@ func (f *File) Readdirnames(n int) ([]string, error) {
 type dirEntry struct{ fileInfo }
 
 //go:norace
-func (d dirEntry) Type() FileMode          { return d.Mode().Type() }
+func (d dirEntry) Type() FileMode { return d.Mode().Type() }
+
 //go:norace
 func (d dirEntry) Info() (FileInfo, error) { return d.fileInfo, nil }
 
 // ReadDir is (*os.File).ReadDir.
+//
 //go:norace
 func (f *File) ReadDir(n int) ([]DirEntry, error) {
 	if f.real != nil {
@@ -902,6 +947,7 @@ func (f *File) ReadDir(n int) ([]DirEntry, error) {
 }
 
 // Readdir is (*os.File).Readdir.
+//
 //go:norace
 func (f *File) Readdir(n int) ([]FileInfo, error) {
 	if f.real != nil {
@@ -918,6 +964,7 @@ func (f *File) Readdir(n int) ([]FileInfo, error) {
 }
 
 // ReadDir is os.ReadDir (sorted by name, like os).
+//
 //go:norace
 func ReadDir(name string) ([]DirEntry, error) {
 	t, f := cur()
@@ -946,6 +993,7 @@ func ReadDir(name string) ([]DirEntry, error) {
 }
 
 // ReadFile is os.ReadFile.
+//
 //go:norace
 func ReadFile(name string) ([]byte, error) {
 	t, f := cur()
@@ -964,6 +1012,7 @@ func ReadFile(name string) ([]byte, error) {
 }
 
 // WriteFile is os.WriteFile (create/truncate step, then one write step).
+//
 //go:norace
 func WriteFile(name string, data []byte, perm FileMode) error {
 	if _, f := cur(); f == nil {
@@ -981,6 +1030,7 @@ func WriteFile(name string, data []byte, perm FileMode) error {
 }
 
 // Truncate is os.Truncate.
+//
 //go:norace
 func Truncate(name string, size int64) error {
 	if _, f := cur(); f == nil {
@@ -994,6 +1044,7 @@ func Truncate(name string, size int64) error {
 }
 
 // Chmod is os.Chmod (no-op under simulation).
+//
 //go:norace
 func Chmod(name string, mode FileMode) error {
 	if _, f := cur(); f == nil {
@@ -1003,6 +1054,7 @@ func Chmod(name string, mode FileMode) error {
 }
 
 // Chtimes is os.Chtimes.
+//
 //go:norace
 func Chtimes(name string, atime, mtime time.Time) error {
 	_, f := cur()
@@ -1017,6 +1069,7 @@ func Chtimes(name string, atime, mtime time.Time) error {
 }
 
 // MkdirTemp is os.MkdirTemp.
+//
 //go:norace
 func MkdirTemp(dir, pattern string) (string, error) {
 	if _, f := cur(); f == nil {
@@ -1026,6 +1079,7 @@ func MkdirTemp(dir, pattern string) (string, error) {
 }
 
 // CreateTemp is os.CreateTemp; under simulation the name is deterministic.
+//
 //go:norace
 func CreateTemp(dir, pattern string) (*File, error) {
 	t, f := cur()
